@@ -1004,18 +1004,31 @@ fn images_of(r: &mut Rng, sc: &mut Scratch, out: &mut Out, thorough: bool, budge
     for x in &run.logged {
         t.add_rec(x);
     }
-    let mut prefixes: Vec<Vec<String>> = (0..=run.logged.len()).map(|k| committed(&run.logged[..k])).collect();
+    let by_k: Vec<Vec<String>> = (0..=run.logged.len()).map(|k| committed(&run.logged[..k])).collect();
+    let mut prefixes: Vec<Vec<String>> = by_k.clone();
     prefixes.dedup();
     let base_tags = vec![mode.tag(), format!("files:{}", run.files.len().min(4))];
     let last = run.files.len() - 1;
     let lastb = run.files[last].1.clone();
     let ends = frame_ends(&lastb);
-    let mut emit = |sc: &mut Scratch, img: Image, must_open: bool, budget: &mut usize| {
+    // `limit`: the damaged record is the limit-th of the log (single file): nothing from it on may be applied
+    let mut emit_lim = |sc: &mut Scratch, img: Image, must_open: bool, budget: &mut usize, limit: Option<usize>| {
         if *budget == 0 {
             return;
         }
         *budget -= 1;
-        let c = case_image(sc, &t, &run.files, &img, &prefixes, must_open);
+        let c = match limit {
+            Some(k) => {
+                let mut lim: Vec<Vec<String>> = by_k[..=k.min(by_k.len() - 1)].to_vec();
+                lim.dedup();
+                let mut c = case_image(sc, &t, &run.files, &img, &lim, must_open);
+                if c.oracle == Oracle::Fail && c.kid.is_none() {
+                    c.msg = format!("{} (record #{} of the log is damaged: it and everything behind it must not be applied)", c.msg, k);
+                }
+                c
+            }
+            None => case_image(sc, &t, &run.files, &img, &prefixes, must_open),
+        };
         out.emit(&c);
     };
     let mk = |files: Vec<(u64, Vec<u8>)>, meta: Option<Vec<u8>>, tmp: bool, what: String, extra: &[&str]| {
@@ -1042,13 +1055,13 @@ fn images_of(r: &mut Rng, sc: &mut Scratch, out: &mut Out, thorough: bool, budge
         }
         // losing the rename is a legitimate crash state only if no file would then be read twice;
         // the prefix oracle covers it (min_sequence only drops files)
-        emit(sc, mk(fs, if lose_meta { None } else { run.meta.clone() }, tmp, format!("cut last file at {}/{}", cut, lastb.len()), &ex), !lose_meta || run.files.len() == 1, budget);
+        emit_lim(sc, mk(fs, if lose_meta { None } else { run.meta.clone() }, tmp, format!("cut last file at {}/{}", cut, lastb.len()), &ex), !lose_meta || run.files.len() == 1, budget, None);
     }
     // a freshly rotated, still empty file
     {
         let mut fs = run.files.clone();
         fs.push((run.files[last].0 + 1, vec![]));
-        emit(sc, mk(fs, run.meta.clone(), false, "fresh empty rotated file".into(), &["rotated-empty"]), true, budget);
+        emit_lim(sc, mk(fs, run.meta.clone(), false, "fresh empty rotated file".into(), &["rotated-empty"]), true, budget, None);
     }
     // a non-final file cut (rotation does not fsync the old file)
     if run.files.len() > 1 {
@@ -1061,7 +1074,7 @@ fn images_of(r: &mut Rng, sc: &mut Scratch, out: &mut Out, thorough: bool, budge
             let cut = r.below(l as u64) as usize;
             let mut fs = run.files.clone();
             fs[i].1.truncate(cut);
-            emit(sc, mk(fs, run.meta.clone(), false, format!("cut file #{} at {}/{}", i, cut, l), &["cut:non-final-file"]), true, budget);
+            emit_lim(sc, mk(fs, run.meta.clone(), false, format!("cut file #{} at {}/{}", i, cut, l), &["cut:non-final-file"]), true, budget, None);
         }
     }
     // single-bit flips
@@ -1081,7 +1094,9 @@ fn images_of(r: &mut Rng, sc: &mut Scratch, out: &mut Out, thorough: bool, budge
         let start = e.iter().rev().find(|&&x| x <= p).copied().unwrap_or(0);
         let field = if p - start < 4 { "flip:length" } else if e.iter().any(|&x| x > p && x - p <= 4) { "flip:checksum" } else { "flip:body" };
         fs[fi].1 = flip(&fs[fi].1, p, bit);
-        emit(sc, mk(fs, run.meta.clone(), false, format!("flip bit {} of byte {} of file #{}", bit, p, fi), &[field]), true, budget);
+        // a flip inside a body or a checksum field of record j of a single-file log: records j.. are out
+        let limit = if run.files.len() == 1 && field != "flip:length" { Some(e.iter().filter(|&&x| x <= p).count()) } else { None };
+        emit_lim(sc, mk(fs, run.meta.clone(), false, format!("flip bit {} of byte {} of file #{}", bit, p, fi), &[field]), true, budget, limit);
     }
     // crafted damage: valid checksum over an undecodable payload, trailing byte inside a payload,
     // huge length field, garbage metadata
@@ -1096,7 +1111,7 @@ fn images_of(r: &mut Rng, sc: &mut Scratch, out: &mut Out, thorough: bool, budge
         nb.extend(&fr);
         nb.extend(&lastb[at..]);
         fs[last].1 = nb;
-        emit(sc, mk(fs, run.meta.clone(), false, "undecodable payload with a valid checksum".into(), &["crafted:undecodable"]), true, budget);
+        emit_lim(sc, mk(fs, run.meta.clone(), false, "undecodable payload with a valid checksum".into(), &["crafted:undecodable"]), true, budget, None);
         if let Some(x) = run.logged.first() {
             let mut p = enc_rec(x);
             p.push(0);
@@ -1107,13 +1122,13 @@ fn images_of(r: &mut Rng, sc: &mut Scratch, out: &mut Out, thorough: bool, budge
             fs[last].1.extend(&fr);
             fs[last].1.extend(enc_frame(&WalRecord::TxCommit { tx_id: TxId::new(9) }));
             // not a crash image: correspondence only
-            emit(sc, mk(fs, run.meta.clone(), false, "payload with a trailing byte".into(), &["crafted:trailing-byte"]), false, budget);
+            emit_lim(sc, mk(fs, run.meta.clone(), false, "payload with a trailing byte".into(), &["crafted:trailing-byte"]), false, budget, None);
         }
         let mut fs = run.files.clone();
         fs[last].1.extend([0x00, 0x00, 0x00, 0x10, 1, 2, 3]);
-        emit(sc, mk(fs, run.meta.clone(), false, "length field 2^28 behind the last record".into(), &["crafted:huge-length"]), true, budget);
-        emit(sc, mk(run.files.clone(), Some(vec![0xfd]), false, "undecodable checkpoint.meta".into(), &["crafted:bad-meta"]), false, budget);
-        emit(sc, mk(run.files.clone(), Some(vec![]), false, "empty checkpoint.meta".into(), &["crafted:bad-meta"]), false, budget);
+        emit_lim(sc, mk(fs, run.meta.clone(), false, "length field 2^28 behind the last record".into(), &["crafted:huge-length"]), true, budget, None);
+        emit_lim(sc, mk(run.files.clone(), Some(vec![0xfd]), false, "undecodable checkpoint.meta".into(), &["crafted:bad-meta"]), false, budget, None);
+        emit_lim(sc, mk(run.files.clone(), Some(vec![]), false, "empty checkpoint.meta".into(), &["crafted:bad-meta"]), false, budget, None);
     }
 }
 fn enc_frame(r: &WalRecord) -> Vec<u8> {
